@@ -164,6 +164,171 @@ theorem pluginAuth_iff (cfg : Creds) (pair : Option (Str × Str)) :
   | none => simp
   | some p => obtain ⟨u, pw⟩ := p; simp
 
+/-! ### the request on the wire: percent-decoding only, same path for check and forwarding -/
+
+/-- **http proxies, wire level**: for every route table and every request target as sent
+    (percent-encoded, with dot segments, empty segments, …) the backend of route `id` is reached only
+    with exactly that route's credentials.  A target that does not decode reaches no handler. -/
+theorem serveWire_sound (T : Table) (w : WireReq) (id : Nat) (h : serveWire T w = some (.forward id)) :
+    CredsOK T id w.auth := by
+  unfold serveWire at h
+  cases hp : w.parse with
+  | none => rw [hp] at h; cases h
+  | some q =>
+    rw [hp] at h
+    simp only [Option.map_some, Option.some.injEq] at h
+    have hq : q.auth = w.auth := by
+      unfold WireReq.parse at hp
+      cases hu : unescapePath w.target with
+      | none => rw [hu] at hp; cases hp
+      | some p => rw [hu] at hp; simp only [Option.map_some, Option.some.injEq] at hp; rw [← hp]
+    rw [← hq]
+    exact serve_sound T q id h
+
+theorem getVhost_prefix {R : Routers} {host path user : Str} {r : Route}
+    (h : getVhost R host path user = some r) : hasPrefix path r.location = true := by
+  unfold getVhost at h
+  obtain ⟨d, _, hd⟩ := List.exists_of_findSome?_eq_some h
+  unfold findRouter at hd
+  have key : ∀ u, Router.get R d path u = some r → hasPrefix path r.location = true := by
+    intro u hu
+    unfold Router.get at hu
+    exact List.find?_some (p := fun (x : Route) => hasPrefix path x.location) hu
+  split at hd
+  · rename_i r' hr'
+    cases hd
+    exact key _ hr'
+  · exact key _ hd
+
+/-- **no path normalisation between check and forwarding**: the route a request is forwarded to is
+    selected by `req.URL.Path` exactly as received (its location is a prefix of that path), and it is
+    the route `CheckAuth` looked at (`serve_same_route`).  A dot segment, an empty segment or an
+    encoded separator in the target therefore cannot steer the request to a location whose
+    credentials were not checked. -/
+theorem serve_forward_prefix (T : Table) (q : Req) (id : Nat) (h : serve T q = .forward id) :
+    ∃ r, getVhost T.R (canon q.host) q.path (routeUser q) = some r ∧ r.payload = id ∧
+      hasPrefix q.path r.location = true := by
+  obtain ⟨r, hr, hid, _⟩ := serve_same_route T q id h
+  exact ⟨r, hr, hid, getVhost_prefix hr⟩
+
+/-- decoding is the identity on targets without `%` (so the wire-level statement specialises to the
+    older one) and rejects a dangling escape -/
+example : unescapePath (s "/b/../a//x") = some (s "/b/../a//x") := by decide +kernel
+example : unescapePath (s "/b/%2e%2E/a%2fx") = some (s "/b/../a/x") := by decide +kernel
+example : unescapePath (s "/a%2") = none := by decide +kernel
+example : unescapePath (s "/a%zz") = none := by decide +kernel
+
+/-- an open "/" route and a protected "/a" route on one host -/
+def pTable : Table :=
+  { R := (add (add Router.empty (s "h.example.com") (s "/") [] 1).1 (s "h.example.com") (s "/a") [] 2).1
+    creds := [(2, ⟨s "alice", s "secret"⟩)] }
+
+def pReq (t : String) (a : Option (Str × Str)) : WireReq :=
+  { host := s "h.example.com", proxied := false, target := s t, auth := a, pauth := none }
+
+/-- non-vacuity: targets that a path cleaner would map below "/a" are served by the open route, the
+    protected one answers the challenge without, and forwards with, its credentials -/
+example : serveWire pTable (pReq "/b/../a/x" none) = some (.forward 1) := by decide +kernel
+example : serveWire pTable (pReq "//a/x" none) = some (.forward 1) := by decide +kernel
+example : serveWire pTable (pReq "/%61/x" none) = some .unauthorized := by decide +kernel
+example : serveWire pTable (pReq "/a/../b" none) = some .unauthorized := by decide +kernel
+example : serveWire pTable (pReq "/a/../b" (some (s "alice", s "secret"))) = some (.forward 2) := by decide +kernel
+example : serveWire pTable (pReq "/a/%" none) = none := by decide +kernel
+
+/-! ### http_proxy plugin: the dispatch of a whole work connection -/
+
+/-- the request presents exactly the plugin's credentials (or the plugin is not protected) -/
+def PlCredsOK (cfg : Creds) (pair : Option (Str × Str)) : Prop :=
+  (cfg.user = [] ∧ cfg.pass = []) ∨ pair = some (cfg.user, cfg.pass)
+
+instance (cfg : Creds) (pair : Option (Str × Str)) : Decidable (PlCredsOK cfg pair) := by
+  unfold PlCredsOK; infer_instance
+
+/-- **ServeHTTP**: neither `ConnectHandler` nor `HTTPHandler` runs unless `Auth` accepted, whatever
+    the method -/
+theorem pluginServeHTTP_reaches (cfg : Creds) (q : PlReq) (h : (pluginServeHTTP cfg q).reaches = true) :
+    PlCredsOK cfg q.pair := by
+  unfold pluginServeHTTP at h
+  split at h
+  · cases h
+  · rename_i ha
+    exact (pluginAuth_iff cfg q.pair).mp (by simpa using ha)
+
+/-- **handleConnectReq**: the target is dialled only if `Auth` accepted -/
+theorem pluginHandleConnect_reaches (cfg : Creds) (q : PlReq) (h : (pluginHandleConnect cfg q).reaches = true) :
+    PlCredsOK cfg q.pair := by
+  unfold pluginHandleConnect at h
+  split at h
+  · cases h
+  · rename_i ha
+    exact (pluginAuth_iff cfg q.pair).mp (by simpa using ha)
+
+theorem pluginServeConn_sound (cfg : Creds) (qs : List PlReq) :
+    ∀ p ∈ List.zip qs (pluginServeConn cfg qs), p.2.reaches = true → PlCredsOK cfg p.1.pair := by
+  induction qs with
+  | nil => intro p hp; simp [pluginServeConn] at hp
+  | cons q rest ih =>
+    intro p hp hr
+    simp only [pluginServeConn, List.zip_cons_cons, List.mem_cons] at hp
+    rcases hp with rfl | hp
+    · exact pluginServeHTTP_reaches cfg q hr
+    · split at hp
+      · simp at hp
+      · exact ih p hp hr
+
+/-- **Handle, whole connection**: for every sequence of requests on one work connection (CONNECT
+    first, CONNECT after other requests, any casing of the method, any credentials on each request)
+    the i-th request reaches a target only if that very request carries exactly the configured
+    user name and password — credentials of an earlier request of the connection do not count. -/
+theorem pluginHandle_sound (cfg : Creds) (qs : List PlReq) :
+    ∀ p ∈ List.zip qs (pluginHandle cfg qs), p.2.reaches = true → PlCredsOK cfg p.1.pair := by
+  cases qs with
+  | nil => intro p hp; simp [pluginHandle] at hp
+  | cons q rest =>
+    intro p hp hr
+    by_cases hs : sniffConnect q.method = true
+    · simp only [pluginHandle, hs, if_true, List.zip_cons_cons, List.mem_cons] at hp
+      rcases hp with rfl | hp
+      · exact pluginHandleConnect_reaches cfg q hr
+      · simp at hp
+    · simp only [pluginHandle, hs] at hp
+      exact pluginServeConn_sound cfg (q :: rest) p hp hr
+
+/-- requests without the exact credentials are answered with the challenge (connection kept) or are
+    refused and the connection closed; nothing else -/
+theorem pluginHandle_refuses (cfg : Creds) (qs : List PlReq) :
+    ∀ p ∈ List.zip qs (pluginHandle cfg qs), ¬ PlCredsOK cfg p.1.pair →
+      p.2 = .challenge ∨ p.2 = .refuseClose := by
+  intro p hp hn
+  have h := pluginHandle_sound cfg qs p hp
+  cases hp2 : p.2 with
+  | challenge => exact Or.inl rfl
+  | refuseClose => exact Or.inr rfl
+  | tunnel => rw [hp2] at h; exact absurd (h rfl) hn
+  | fetch => rw [hp2] at h; exact absurd (h rfl) hn
+
+/-- a CONNECT that opens the work connection without the credentials: 407 and the connection is
+    closed (no further request of that connection is read) -/
+theorem pluginHandle_first_connect_refused (cfg : Creds) (q : PlReq) (rest : List PlReq)
+    (hs : sniffConnect q.method = true) (hn : ¬ PlCredsOK cfg q.pair) :
+    pluginHandle cfg (q :: rest) = [.refuseClose] := by
+  have ha : pluginAuth cfg q.pair = false := by
+    cases h : pluginAuth cfg q.pair with
+    | false => rfl
+    | true => exact absurd ((pluginAuth_iff cfg q.pair).mp h) hn
+  simp [pluginHandle, hs, pluginHandleConnect, ha]
+
+def plCfg : Creds := ⟨s "u", s "p"⟩
+def plGood : Option (Str × Str) := some (s "u", s "p")
+
+/-- non-vacuity: the sequences of the kind "plain request, then CONNECT" -/
+example : pluginHandle plCfg [⟨s "GET", none⟩, ⟨s "CONNECT", none⟩] = [.challenge, .challenge] := by decide +kernel
+example : pluginHandle plCfg [⟨s "GET", plGood⟩, ⟨s "CONNECT", none⟩, ⟨s "CONNECT", plGood⟩, ⟨s "GET", plGood⟩] =
+    [.fetch, .challenge, .tunnel] := by decide +kernel
+example : pluginHandle plCfg [⟨s "connect", none⟩, ⟨s "GET", plGood⟩] = [.refuseClose] := by decide +kernel
+example : pluginHandle plCfg [⟨s "OPTIONS", plGood⟩, ⟨s "connect", plGood⟩] = [.fetch, .fetch] := by decide +kernel
+example : pluginHandle plCfg [⟨s "CONNECT", plGood⟩] = [.tunnel] := by decide +kernel
+
 /-! ### executable predicate for implementation traces -/
 
 /-- what the implementation answered for request `q` respects the property -/
@@ -181,6 +346,61 @@ theorem holdsOn_sound (T : Table) (q : Req) (r : Resp) :
 
 theorem model_holdsOn (T : Table) (q : Req) : holdsOn T q (serve T q) = true :=
   (holdsOn_sound T q _).mpr (fun id h => serve_sound T q id h)
+
+/-- wire-level predicate: `none` = the server answered 400 itself -/
+def holdsOnWire (T : Table) (w : WireReq) (r : Option Resp) : Bool :=
+  match r with
+  | some (.forward id) => decide (CredsOK T id w.auth)
+  | _ => true
+
+theorem holdsOnWire_sound (T : Table) (w : WireReq) (r : Option Resp) :
+    holdsOnWire T w r = true ↔ (∀ id, r = some (.forward id) → CredsOK T id w.auth) := by
+  cases r with
+  | none => simp [holdsOnWire]
+  | some r =>
+    cases r with
+    | forward id => simp [holdsOnWire]
+    | unauthorized => simp [holdsOnWire]
+    | notFound => simp [holdsOnWire]
+
+theorem model_holdsOnWire (T : Table) (w : WireReq) : holdsOnWire T w (serveWire T w) = true :=
+  (holdsOnWire_sound T w _).mpr (fun id h => serveWire_sound T w id h)
+
+/-- http_proxy plugin, one work connection: `reached[i]` = the target saw the i-th request (its
+    tunnel or its forwarded request), as observed at the target -/
+def plHoldsOn (cfg : Creds) : List PlReq → List Bool → Bool
+  | q :: qs, r :: rs => (!r || decide (PlCredsOK cfg q.pair)) && plHoldsOn cfg qs rs
+  | _, _ => true
+
+theorem plHoldsOn_sound (cfg : Creds) (qs : List PlReq) (rs : List Bool) :
+    plHoldsOn cfg qs rs = true ↔ (∀ p ∈ List.zip qs rs, p.2 = true → PlCredsOK cfg p.1.pair) := by
+  induction qs generalizing rs with
+  | nil => simp [plHoldsOn]
+  | cons q qs ih =>
+    cases rs with
+    | nil => simp [plHoldsOn]
+    | cons r rs =>
+      simp only [plHoldsOn, Bool.and_eq_true, List.zip_cons_cons, List.mem_cons, ih rs]
+      constructor
+      · intro ⟨h1, h2⟩ p hp hr
+        rcases hp with rfl | hp
+        · simp only at hr
+          subst hr
+          simpa using h1
+        · exact h2 p hp hr
+      · intro h
+        refine ⟨?_, fun p hp hr => h p (Or.inr hp) hr⟩
+        cases r with
+        | false => simp
+        | true => simpa using h (q, true) (Or.inl rfl) rfl
+
+theorem model_plHoldsOn (cfg : Creds) (qs : List PlReq) :
+    plHoldsOn cfg qs ((pluginHandle cfg qs).map PlAct.reaches) = true := by
+  rw [plHoldsOn_sound]
+  intro p hp hr
+  rw [List.zip_map_right] at hp
+  obtain ⟨p', hp', rfl⟩ := List.mem_map.mp hp
+  exact pluginHandle_sound cfg qs p' hp' hr
 
 /-! non-vacuity: a protected route is reached with the right credentials -/
 example : serve wTable { wReq with auth := some (s "alice", s "secret") } = .forward 1 := by decide +kernel
